@@ -26,6 +26,8 @@ _o7 = register
 
 def register(m):
     _o7(m)
-    m("C07", "c07-celsius-cached-on-instance", CE, "    return Quantity(to_kelvin(value) * units.kelvin)",
-      "    if getattr(value, '_k', None) is None:\n        value._k = Quantity(to_kelvin(value) * units.kelvin)\n    return value._k", "U7")
+    m("C07", "c07-celsius-cached-on-instance", CE, "    return Quantity(to_kelvin(value), dimension=units.temperature)",
+      "    if getattr(value, '_k', None) is None:\n        value._k = Quantity(to_kelvin(value), dimension=units.temperature)\n    return value._k", "U7")
+    m("C07", "c07-absolute-zero-regression", CE, "    return Quantity(to_kelvin(value), dimension=units.temperature)", "    return Quantity(to_kelvin(value) * units.kelvin)", "U5")
+    m("C07", "c07-kelvin-quantity-wrong-dimension", CE, "    return Quantity(to_kelvin(value), dimension=units.temperature)", "    return Quantity(to_kelvin(value), dimension=units.time)", "U5")
     m("C07", "c07-convert-memoised", CV, "def convert_to_si(value: SupportsFloat) -> Expr:", "import functools\n\n\n@functools.lru_cache\ndef convert_to_si(value: SupportsFloat) -> Expr:", "U7")
